@@ -462,6 +462,33 @@ fn json_text<E: Encoding + Clone>(
     }
 }
 
+// >>> w_json (wave 5): the keys and leaves of a canonical tree in text order (stream `atoms`):
+// K<hex> for an object key, V<leaf> for a leaf; brackets and braces vanish
+fn atoms_of_canonical(s: &str) -> String {
+    let b = s.as_bytes();
+    let mut out: Vec<String> = Vec::new();
+    let mut i = 0;
+    while i < b.len() {
+        let c = b[i];
+        if c == b'[' || c == b']' || c == b'{' || c == b'}' || c == b',' || c == b':' {
+            i += 1;
+            continue;
+        }
+        let st = i;
+        while i < b.len() && !matches!(b[i], b'[' | b']' | b'{' | b'}' | b',' | b':') {
+            i += 1;
+        }
+        let tok = &s[st..i];
+        if i < b.len() && b[i] == b':' {
+            out.push(format!("K{}", &tok[1..]));
+        } else {
+            out.push(format!("V{}", tok));
+        }
+    }
+    out.join(",")
+}
+// <<<
+
 // ------------------------------------------------------------------ watchdog
 // A case of this family takes microseconds.  If one is still running after WATCHDOG_MS the process
 // aborts: the runner prints ABORT for that case and goes on with the next one (a hang would
@@ -536,7 +563,31 @@ pub fn dispatch(kind: &str, a: &[&str]) -> Option<String> {
                 node_view(&tape, tape.windows1252_reader(), idx)
             }
         }
-        ("json.ser", [enc, idx, entry, pretty, dup, narrow]) | ("json.text", [enc, idx, entry, pretty, dup, narrow]) => {
+        // >>> w_json (wave 5): the atoms of the root's JSON, for the document walk JsonDoc.doc_eatoms
+        ("json.atoms", [enc, dup, narrow]) => {
+            let opts = options("0", dup, narrow);
+            let text = if *enc == "u" {
+                json_text(&tape, tape.utf8_reader(), "top", "o", opts)
+            } else {
+                json_text(&tape, tape.windows1252_reader(), "top", "o", opts)
+            };
+            match text {
+                Err(e) => e,
+                Ok(t) => {
+                    let c = canonical_tree(&t);
+                    if c.starts_with("INVALID") || c.starts_with("FLOAT-LEX") {
+                        c
+                    } else {
+                        atoms_of_canonical(&c)
+                    }
+                }
+            }
+        }
+        // <<<
+        // json.aspec (w_json, wave 5): the same observation as json.ser; the model side computes the array
+        // through the declarative reading JsonDoc.win_read instead of Json.ser_window
+        ("json.ser", [enc, idx, entry, pretty, dup, narrow]) | ("json.text", [enc, idx, entry, pretty, dup, narrow])
+        | ("json.aspec", [enc, idx, entry, pretty, dup, narrow]) => {
             let opts = options(pretty, dup, narrow);
             let text = if *enc == "u" {
                 json_text(&tape, tape.utf8_reader(), idx, entry, opts)
